@@ -5,7 +5,7 @@ from jsongen import *
 META = {
     "technique": "Lean 4 model of json::dumpToString (every indentation) and of the recursive-descent loader on a NUL-terminated byte list, with primitive::toString/load for the integer and boolean types; round trip proved by structural induction; differential run of the model against the real occa::json under ASan/UBSan, floats included through exact decimal arithmetic on the bit patterns",
     "category": "proof",
-    "level_text": "Proof, for all JSON trees, indentations and trailing delimiters: parse(dump(v)) succeeds and == v for values whose strings/keys are NUL-free, keys non-empty, numbers of any bool/integer type without source text (C24_roundtrip), dump is a function of the value with std::map order canonical (C24_obj_canonical, C24_insert_commutes, C24_dump_deterministic, C24_hash_deterministic); the model's constants and code shapes are re-checked against tables regenerated from the source (gen_json, JsonGenTie); float-typed numbers, numbers carrying source text and arbitrary input text are covered by the correspondence run only; NUL bytes, NaN/Inf and empty keys are recorded findings with refutation theorems.",
+    "level_text": "Proof, for all JSON trees, indentations and trailing delimiters: parse(dump(v)) succeeds and == v for values whose strings/keys are NUL-free, keys non-empty, numbers of any bool/integer type without source text (C24_roundtrip; the value read back has the same mathematical value, prints the same text and has the same hash: C24_number_value_preserved, C24_reparse_same_text; the model's recursion budget is never exhausted on any text: C24_fuel_never_exhausted), dump is a function of the value with std::map order canonical (C24_obj_canonical, C24_insert_commutes, C24_dump_deterministic, C24_hash_deterministic); the model's constants and code shapes are re-checked against tables regenerated from the source (gen_json, JsonGenTie); float-typed numbers, numbers carrying source text and arbitrary input text are covered by the correspondence run only; NUL bytes, NaN/Inf and empty keys are recorded findings with refutation theorems.",
     "level_note": "Trusted: Lean kernel; the hand-written model lean/OccaModel/Json.lean + JsonFloat.lean (validated against the real code by the correspondence run, not proved equal to the C++); harness/h_json.cpp and its oracles; glibc printf/scanf as the meaning of float text. The model is of the repaired code (fixes/F28, FJ1, FJ5); values containing none_ nodes are outside the property's quantifier.",
     "design_ref": "DESIGN.md section 4, C24",
 }
